@@ -39,7 +39,7 @@ TAG_RE = re.compile(r'‹(cur|pref):([^›]*)›')
 SKIP_ATTRS = {'timevector'}
 
 
-def symbolize(model, prefix_filter=None):
+def symbolize(model, prefix_filter=None, tag_units=True):
     """replace every numeric Parameter / OutputParameter value of the four core components by proxies and every unit by a tag.
     Returns vals: name -> proxy / list of proxies."""
     vals = {}
@@ -49,8 +49,9 @@ def symbolize(model, prefix_filter=None):
             if not gx.is_param(p) or an in SKIP_ATTRS:
                 continue
             name = f'{cn}.{an}'
-            p.CurrentUnits = UnitTag(f'‹cur:{name}›')
-            p.PreferredUnits = UnitTag(f'‹pref:{name}›')
+            if tag_units:
+                p.CurrentUnits = UnitTag(f'‹cur:{name}›')
+                p.PreferredUnits = UnitTag(f'‹pref:{name}›')
             v = p.value
             if isinstance(v, bool) or isinstance(v, (str, type(None))) or hasattr(v, 'int_value'):
                 continue
